@@ -374,8 +374,18 @@ class StmtMixin:
 
     # ------------------------------------------------------------------ loops
     def loop_spec(self, st):
-        self.loop_counter += 1
-        k = self.loop_counter
+        if not hasattr(self, "_loop_ord") or self._loop_ord_fd is not self.fd:
+            self._loop_ord = {}
+            self._loop_ord_fd = self.fd
+            n = 0
+            for node in ast.walk(self.fd):
+                pass
+            order = sorted((nd for nd in ast.walk(self.fd) if isinstance(nd, (ast.For, ast.While))), key=lambda nd: (nd.lineno, nd.col_offset))
+            for i, nd in enumerate(order, 1):
+                self._loop_ord[id(nd)] = i
+        k = self._loop_ord.get(id(st))
+        if k is None:
+            raise Unsupported(f"loop at line {st.lineno} is not part of the function under verification")
         lp = self.contract.loops.get(k)
         if lp is None or lp.invariant is None:
             raise Unsupported(f"loop #{k} (line {st.lineno}) has no sidecar invariant")
